@@ -237,8 +237,9 @@ def run(ctx) -> None:
         else:
             ctx.fail("R11c", f, n.ast, inst,
                      "a path from create_command leaves the function (here by raising) with the new instance still registered in "
-                     "uod.command_instances although it neither executes nor was finalized: it survives even Stop, and the next "
-                     "request of that command finds a stale instance", p)
+                     "uod.command_instances although it neither executes nor was finalized: it is not finalized when it fails - only if a later "
+                     "request of that command or the end of the run happens to find it - and the next request of that command is used up on "
+                     "the stale instance", p)
     # ---- R11d
     for qual, disp in (("openpectus.lang.exec.uod:UodCommand.finalize", "dispose_command"),
                        ("openpectus.engine.internal_commands:InternalEngineCommand.finalize", "dispose_command")):
